@@ -274,22 +274,38 @@ func ruleKeyToLabel(r *Run) {
 		o.Fail("-", "function not found")
 		return
 	}
+	// the two rune loops: in KeyToLabel, the slow one possibly in a helper of it
 	var nexts []*ssa.Next
-	for _, b := range fn.Blocks {
-		for _, in := range b.Instrs {
-			if n, ok := in.(*ssa.Next); ok && n.IsString {
-				nexts = append(nexts, n)
+	for _, gf := range funcGroup(fn) {
+		if gf.Parent() != nil {
+			continue
+		}
+		for _, b := range gf.Blocks {
+			for _, in := range b.Instrs {
+				if n, ok := in.(*ssa.Next); ok && n.IsString {
+					nexts = append(nexts, n)
+				}
 			}
 		}
 	}
+	inl := inlineHelpers(fn)
 	if len(nexts) != 2 {
 		o.Undecide(r.pos(fn.Pos()), "expected a fast and a slow loop over the key's runes, found %d string loops: the function is not the two-phase algorithm this rule understands", len(nexts))
 		return
 	}
 	fast, slow := nexts[0], nexts[1]
-	if slow.Block().Dominates(fast.Block()) {
+	switch {
+	case fast.Parent() == fn && slow.Parent() == fn:
+		if slow.Block().Dominates(fast.Block()) {
+			fast, slow = slow, fast
+		}
+	case slow.Parent() == fn:
 		fast, slow = slow, fast
+	case fast.Parent() != fn:
+		o.Undecide(r.pos(fn.Pos()), "KeyToLabel itself has no loop over the key's runes")
+		return
 	}
+	sfn := slow.Parent() // the function that holds the slow loop
 	ex := func(n *ssa.Next, i int) ssa.Value {
 		for _, ref := range *n.Referrers() {
 			if e, ok := ref.(*ssa.Extract); ok && e.Index == i {
@@ -321,8 +337,14 @@ func ruleKeyToLabel(r *Run) {
 			}
 			switch callee.Name() {
 			case "WriteString":
-				if s, ok := constStr(c.Call.Common().Args[1]); ok {
+				if c.Args[1].Known && c.Args[1].C.Kind() == constant.String {
+					if sv := constant.StringVal(c.Args[1].C); sv != "" {
+						events = append(events, "write:"+sv)
+					}
+				} else if s, ok := constStr(c.Call.Common().Args[1]); ok {
 					events = append(events, "write:"+s)
+				} else if sl, ok := c.Args[1].V.(*ssa.Slice); ok && sl.Low == nil && sl.High != nil {
+					events = append(events, "copyprefix")
 				} else if sl, ok := c.Call.Common().Args[1].(*ssa.Slice); ok && sl.Low == nil && sl.High != nil {
 					events = append(events, "copyprefix")
 				} else {
@@ -364,7 +386,7 @@ func ruleKeyToLabel(r *Run) {
 					assume[fIdx] = constant.MakeInt64(3)
 				}
 			}
-			w := &feWalker{Fn: fn, Assume: assume, Hook: unicodeHook}
+			w := &feWalker{Fn: fn, Assume: assume, Hook: unicodeHook, Inline: inl}
 			// start right after the Next in the fast header
 			ends := w.RunFrom(fast.Block(), nil)
 			got := map[string]bool{}
@@ -376,17 +398,36 @@ func ruleKeyToLabel(r *Run) {
 					where = "continue"
 				case slow.Block():
 					where = "slow"
+					// what the slow loop then ranges over: the whole key after the "_" prefix, the
+					// key from the offending character on (key[i:]) after the copied prefix
+					if rng, ok := slow.Iter.(*ssa.Range); ok {
+						rv := unspill(w.evalVal(e.State, rng.X).V)
+						switch x := rv.(type) {
+						case *ssa.Parameter:
+							if x == fn.Params[0] {
+								where = "slow(key)"
+							}
+						case *ssa.Slice:
+							if unspill(x.X) == ssa.Value(fn.Params[0]) && x.High == nil && x.Low != nil && fIdx != nil && (x.Low == fIdx || unspill(x.Low) == fIdx) {
+								where = "slow(key[i:])"
+							} else {
+								where = "slow(" + describe(rv, 1) + ")"
+							}
+						default:
+							where = "slow(" + describe(rv, 1) + ")"
+						}
+					}
 				}
 				got[strings.Join(append(ev, where), ",")] = true
 			}
 			want := ""
 			switch cls := runeClass(ch); {
 			case cls == "digit" && first:
-				want = "write:_,slow"
+				want = "write:_,slow(key)"
 			case cls == "digit" || cls == "start":
 				want = "continue"
 			default:
-				want = "copyprefix,slow"
+				want = "copyprefix,slow(key[i:])"
 			}
 			if g := joinSet(got); g != want {
 				bad = true
@@ -403,7 +444,7 @@ func ruleKeyToLabel(r *Run) {
 	}
 	for _, ch := range classRunes {
 		assume := map[ssa.Value]constant.Value{sOK: constant.MakeBool(true), sRune: constant.MakeInt64(int64(ch))}
-		w := &feWalker{Fn: fn, Assume: assume, Hook: unicodeHook}
+		w := &feWalker{Fn: sfn, Assume: assume, Hook: unicodeHook, Inline: inl}
 		got := map[string]bool{}
 		for _, e := range w.RunFrom(slow.Block(), nil) {
 			ev, reached := builderCalls(e, map[*ssa.BasicBlock]bool{slow.Block(): true})
@@ -424,14 +465,14 @@ func ruleKeyToLabel(r *Run) {
 	}
 	// ---- exits: fast loop exhausted -> the key itself; slow loop exhausted -> label.String()
 	{
-		w := &feWalker{Fn: fn, Assume: map[ssa.Value]constant.Value{fOK: constant.MakeBool(false)}, Hook: unicodeHook}
+		w := &feWalker{Fn: fn, Assume: map[ssa.Value]constant.Value{fOK: constant.MakeBool(false)}, Hook: unicodeHook, Inline: inl}
 		for _, e := range w.Run() {
 			if len(e.Results) == 1 && e.Results[0].V != ssa.Value(fn.Params[0]) {
 				bad = true
 				o.Fail(r.pos(e.Term.Pos()), "a key made only of valid characters is returned as %s, not unchanged", describe(e.Results[0].V, 0))
 			}
 		}
-		w2 := &feWalker{Fn: fn, Assume: map[ssa.Value]constant.Value{sOK: constant.MakeBool(false)}, Hook: unicodeHook}
+		w2 := &feWalker{Fn: sfn, Assume: map[ssa.Value]constant.Value{sOK: constant.MakeBool(false)}, Hook: unicodeHook, Inline: inl}
 		for _, e := range w2.RunFrom(slow.Block(), nil) {
 			if len(e.Results) == 1 {
 				c, ok := e.Results[0].V.(*ssa.Call)
